@@ -76,10 +76,13 @@ def _stats(ctx, path):
 
 
 def _mc(ctx, q):
-    r = ctx.tlc_mc('StateStore_MC', 'StateStore_MCq.cfg' if q else 'StateStore_MC.cfg', workers=4, timeout=7200,
-                   coverage=not q, heap='6g')
-    if not q and r.get('zero_actions'):
-        raise vlib.Broken('vacuous model-checking run: actions never taken: %s' % r['zero_actions'][:5])
+    cfgs = ['StateStore_MCq.cfg'] if q else ['StateStore_MC.cfg', 'StateStore_MC3.cfg']
+    for cfg in cfgs:
+        r = ctx.tlc_mc('StateStore_MC', cfg, workers=4, timeout=14400, coverage=not q, heap='6g')
+        # Iter is not a step of the exhaustive runs (it changes no state; IterSound is checked as an invariant in every state)
+        zeros = [z for z in (r.get('zero_actions') or []) if not z.startswith('<Iter ')]
+        if not q and zeros:
+            raise vlib.Broken('vacuous model-checking run: actions never taken: %s' % zeros[:5])
 
 
 def _selftest_replay(ctx, binary, bs, opts):
